@@ -7,7 +7,9 @@ package main
 import (
 	"encoding/hex"
 	"fmt"
+	"reflect"
 	"sort"
+	"strings"
 
 	"github.com/cosmos/cosmos-proto/internal/testprotos/test3"
 	"github.com/cosmos/cosmos-proto/internal/verifsim/rndcorpus"
@@ -18,7 +20,9 @@ import (
 	"github.com/cosmos/cosmos-proto/testpb"
 	"google.golang.org/protobuf/proto"
 	"google.golang.org/protobuf/reflect/protoreflect"
+	"google.golang.org/protobuf/reflect/protoregistry"
 	"google.golang.org/protobuf/runtime/protoiface"
+	"google.golang.org/protobuf/runtime/protoimpl"
 )
 
 var corpus = []proto.Message{
@@ -28,6 +32,10 @@ var corpus = []proto.Message{
 	&shapes.Extra{},
 	&shapes.Nested{},
 	&shapes.Leaf{},
+	&shapes.CycleNode{},
+	&shapes.CycleLink{},
+	&shapes.CycleNodeB{},
+	&shapes.CycleHop{},
 }
 
 var nativeReps = 1
@@ -39,6 +47,36 @@ var nFixed = len(corpus)
 // pickTypeIndex draws a corpus type: half of the draws go to the hand-written
 // types (checked-in ones and the all-shapes schema, which alone hold Any,
 // Timestamp, every map kind ...), half to the whole corpus.
+// discoverTypes lists every other generated message type of this module that
+// is linked into the binary (nested types, helper messages of the checked-in
+// packages ...), in name order.
+func discoverTypes() []proto.Message {
+	have := map[reflect.Type]bool{}
+	for _, m := range corpus {
+		have[reflect.TypeOf(m)] = true
+	}
+	var infos []*protoimpl.MessageInfo
+	protoregistry.GlobalTypes.RangeMessages(func(mt protoreflect.MessageType) bool {
+		mi, ok := mt.(*protoimpl.MessageInfo)
+		if !ok || mi.GoReflectType == nil || mi.Desc == nil || have[mi.GoReflectType] {
+			return true
+		}
+		if !strings.HasPrefix(mi.GoReflectType.Elem().PkgPath(), "github.com/cosmos/cosmos-proto/") {
+			return true
+		}
+		infos = append(infos, mi)
+		return true
+	})
+	sort.Slice(infos, func(i, j int) bool { return infos[i].Desc.FullName() < infos[j].Desc.FullName() })
+	var out []proto.Message
+	for _, mi := range infos {
+		if m, ok := reflect.New(mi.GoReflectType.Elem()).Interface().(proto.Message); ok {
+			out = append(out, m)
+		}
+	}
+	return out
+}
+
 func pickTypeIndex(t *simhook.Tape) int {
 	if len(corpus) == nFixed || t.Draw("type-fixed", 2) == 0 {
 		return t.Draw("type", nFixed)
@@ -54,6 +92,7 @@ func main() {
 		Property: "C05",
 		Init: func(p map[string]string) error {
 			corpus = append(corpus, rndcorpus.Messages...)
+			corpus = append(corpus, discoverTypes()...)
 			if p["native"] == "1" {
 				nativeReps = 6
 			}
